@@ -339,6 +339,37 @@ Proof.
     induction l as [|b l IH]; simpl; [lia|]. destruct b; simpl; lia.
 Qed.
 
+(** check_pair: with ignore_tautomers=True it is smiles_check on (mapped, truth); otherwise it answers True exactly when the
+    mapping is accepted against SOME enumerated tautomer of the truth (None when the enumeration failed); validate_smiles
+    applies it record by record and column by column with the SAME method and flags *)
+Theorem check_pair_spec (m : str) (ia : bool) (r1 r2 : ograph) (tauts : option (list ograph)) :
+  check_pair m ia true r1 r2 tauts = Some (smiles_check_full m ia r1 r2) /\
+  (forall l, tauts = Some l ->
+     exists b, check_pair m ia false r1 r2 tauts = Some b /\
+       (b = true <-> exists t, In t l /\ smiles_check_full m ia r1 t = true)) /\
+  (tauts = None -> check_pair m ia false r1 r2 tauts = None).
+Proof.
+  split; [reflexivity|]. split.
+  - intros l ->. eexists. split; [reflexivity|]. apply existsb_exists.
+  - intros ->. reflexivity.
+Qed.
+Theorem validate_smiles_t_spec (m : str) (ia it : bool) (ncols : nat) (rows : list orowT) :
+  length (validate_smiles_t m ia it ncols rows) = ncols /\
+  forall k i, (k < ncols)%nat -> (i < length rows)%nat ->
+    nth i (nth k (validate_smiles_t m ia it ncols rows) []) None =
+    check_pair m ia it (nth k (snd (nth i rows (None, None, []))) None) (fst (fst (nth i rows (None, None, [])))) (snd (fst (nth i rows (None, None, [])))).
+Proof.
+  split; [unfold validate_smiles_t; rewrite map_length, seq_length; reflexivity|].
+  intros k i Hk Hi. unfold validate_smiles_t.
+  rewrite (nth_indep _ [] (validate_column_t m ia it 0 rows)) by (rewrite map_length, seq_length; exact Hk).
+  rewrite (map_nth (fun k => validate_column_t m ia it k rows) (seq 0 ncols) 0%nat k), seq_nth by exact Hk. simpl.
+  unfold validate_column_t.
+  set (F := fun r : orowT => check_pair m ia it (nth k (snd r) None) (fst (fst r)) (snd (fst r))).
+  set (d := ((None, None, []) : orowT)).
+  rewrite (nth_indep (map F rows) None (F d)) by (rewrite map_length; exact Hi).
+  rewrite (map_nth F rows d i). reflexivity.
+Qed.
+
 (** * Non-vacuity *)
 Example ex_expand : expand_sides 4 [3; 0; 5; 0; 0; 3; 5] = ([3; 6; 5; 7], [8; 3; 5]).
 Proof. reflexivity. Qed.
@@ -359,3 +390,8 @@ Proof. vm_compute. repeat split. Qed.
 Example ex_validate : validate_smiles [82; 67]%N false 2 [(Some (C09_Main.ex_G, C09_Main.ex_H), [Some (C09_Main.ex_G, C09_Main.ex_H); None])]
                       = [([true], 1%nat, 1%nat); ([false], 0%nat, 1%nat)].
 Proof. vm_compute. reflexivity. Qed.
+Example ex_check_pair :
+  check_pair [82; 67]%N false false (Some (C09_Main.ex_G, C09_Main.ex_H)) None (Some [None; Some (C09_Main.ex_G, C09_Main.ex_H)]) = Some true /\
+  check_pair [82; 67]%N false false (Some (C09_Main.ex_G, C09_Main.ex_H)) None (Some [None]) = Some false /\
+  check_pair [82; 67]%N false false (Some (C09_Main.ex_G, C09_Main.ex_H)) None None = None.
+Proof. vm_compute. repeat split. Qed.
